@@ -410,3 +410,102 @@ void ref_solve(const Model &m, RefResult &out, long max_pivots) {
 }
 
 }  // namespace qsx
+
+// ------------------------------------------------------------------------------------
+// exact arithmetic on a given basis (C12, C14): dense Gauss-Jordan over the rationals
+// ------------------------------------------------------------------------------------
+namespace qsx {
+
+// solve M z = b for square M (row-major), returns false if singular
+static bool gauss_solve(std::vector<std::vector<Q>> M, std::vector<Q> b, std::vector<Q> &z) {
+  int n = (int)M.size();
+  for (int c = 0; c < n; c++) {
+    int piv = -1;
+    for (int r = c; r < n; r++) if (M[r][c] != 0) { piv = r; break; }
+    if (piv < 0) return false;
+    std::swap(M[piv], M[c]);
+    std::swap(b[piv], b[c]);
+    Q p = M[c][c];
+    for (int k = c; k < n; k++) M[c][k] /= p;
+    b[c] /= p;
+    for (int r = 0; r < n; r++) {
+      if (r == c || M[r][c] == 0) continue;
+      Q f = M[r][c];
+      for (int k = c; k < n; k++) if (M[c][k] != 0) M[r][k] -= f * M[c][k];
+      b[r] -= f * b[c];
+    }
+  }
+  z = b;
+  return true;
+}
+
+void basis_eval(const Model &m, const std::string &cstat, const std::string &rstat, BasisEval &out) {
+  out = BasisEval();
+  int n = m.n(), mm = m.m(), N = n + mm;
+  // internal columns: structurals then logicals; internal min-form costs
+  std::vector<Q> lo(N), up(N), cost(N, Q(0));
+  std::vector<std::map<int, Q>> colv(N);           // row -> coef
+  for (int j = 0; j < n; j++) { lo[j] = m.cols[j].lo; up[j] = m.cols[j].up; cost[j] = m.cols[j].obj * Q(m.objsense >= 0 ? 1 : -1); }
+  for (int i = 0; i < mm; i++) {
+    const Row &r = m.rows[i];
+    for (auto &kv : r.a) colv[kv.first][i] = kv.second;
+    int s = n + i;
+    colv[s][i] = (r.sense == 'G' || r.sense == 'R') ? Q(-1) : Q(1);
+    lo[s] = 0;
+    up[s] = r.sense == 'E' ? Q(0) : (r.sense == 'R' ? r.range : PINF());
+  }
+  std::vector<int> basic;
+  std::vector<char> st(N);
+  for (int j = 0; j < n; j++) st[j] = cstat[j];
+  for (int i = 0; i < mm; i++) st[n + i] = rstat[i];
+  for (int j = 0; j < N; j++) if (st[j] == '1') basic.push_back(j);
+  out.x.assign(N, Q(0));
+  out.dj.assign(N, Q(0));
+  out.pi.assign(mm, Q(0));
+  if ((int)basic.size() != mm) { out.singular = true; return; }
+  // nonbasic values
+  for (int j = 0; j < N; j++) {
+    if (st[j] == '1') continue;
+    if (st[j] == '0') out.x[j] = is_fin(lo[j]) ? lo[j] : Q(0);
+    else if (st[j] == '2') out.x[j] = is_fin(up[j]) ? up[j] : Q(0);
+    else out.x[j] = 0;
+  }
+  std::vector<std::vector<Q>> B(mm, std::vector<Q>(mm, Q(0))), BT(mm, std::vector<Q>(mm, Q(0)));
+  for (int k = 0; k < mm; k++) for (auto &kv : colv[basic[k]]) { B[kv.first][k] = kv.second; BT[k][kv.first] = kv.second; }
+  std::vector<Q> rhs(mm);
+  for (int i = 0; i < mm; i++) rhs[i] = m.rows[i].rhs;
+  for (int j = 0; j < N; j++) if (st[j] != '1' && out.x[j] != 0) for (auto &kv : colv[j]) rhs[kv.first] -= kv.second * out.x[j];
+  std::vector<Q> xb, pi, cb(mm);
+  if (mm > 0) {
+    if (!gauss_solve(B, rhs, xb)) { out.singular = true; return; }
+    for (int k = 0; k < mm; k++) cb[k] = cost[basic[k]];
+    if (!gauss_solve(BT, cb, pi)) { out.singular = true; return; }
+  }
+  for (int k = 0; k < mm; k++) out.x[basic[k]] = xb[k];
+  out.pi = pi;
+  out.pfeas = true;
+  for (int k = 0; k < mm; k++) {
+    int j = basic[k];
+    if ((is_fin(lo[j]) && out.x[j] < lo[j]) || (is_fin(up[j]) && out.x[j] > up[j])) out.pfeas = false;
+  }
+  out.dfeas = true;
+  out.pobj = 0;
+  out.dobj = 0;
+  for (int i = 0; i < mm; i++) out.dobj += out.pi[i] * m.rows[i].rhs;
+  for (int j = 0; j < N; j++) {
+    Q d = cost[j];
+    for (auto &kv : colv[j]) d -= out.pi[kv.first] * kv.second;
+    out.dj[j] = d;
+    out.pobj += cost[j] * out.x[j];
+    if (st[j] == '1') continue;
+    bool fixed = is_fin(lo[j]) && is_fin(up[j]) && lo[j] == up[j];
+    if (!fixed) {
+      if (st[j] == '0' && d < 0) out.dfeas = false;
+      if (st[j] == '2' && d > 0) out.dfeas = false;
+      if (st[j] == '3' && d != 0) out.dfeas = false;
+    }
+    out.dobj += d * out.x[j];
+  }
+}
+
+}  // namespace qsx
